@@ -364,7 +364,9 @@ def make_range(interp, lo, hi, step):
     cl, ch, cs = conc(lo.z), conc(hi.z), conc(step.z)
     if cl is not None and ch is not None and cs is not None:
         r = range(cl, ch, cs)
-        return Vec(len(r), kind="tuple", elem="int", items=[lift(i) for i in r])
+        out = Vec(len(r), kind="tuple", elem="int", items=[lift(i) for i in r])
+        out.range_desc = (cl, ch, cs)
+        return out
     if cs is None:
         if ctx.branch(step.z == 0, "range-step-zero"):
             raise PyRaise("ValueError", "range() arg 3 must not be zero")
@@ -382,7 +384,9 @@ def make_range(interp, lo, hi, step):
     else:
         length = z3.If(l > h, (l - h + (-s) - 1) / (-s), 0)
     length = z3.simplify(length)
-    return Vec(length, lambda k: Num(z3.simplify(l + zint(k) * s), True), kind="tuple", elem="int")
+    out = Vec(length, lambda k: Num(z3.simplify(l + zint(k) * s), True), kind="tuple", elem="int")
+    out.range_desc = (l, h, s)
+    return out
 
 
 @lib("builtins.range")
@@ -517,6 +521,11 @@ def _b_getattr(interp, args, kwargs):
 
 @lib("builtins.sorted")
 def _b_sorted(interp, args, kwargs):
+    from .lib_sets import SymSet, sorted_set
+    if isinstance(args[0], SymSet):
+        if kwargs:
+            raise Unsupported("sorted with key/reverse")
+        return sorted_set(interp, args[0])
     seq = iter_to_vec(interp, args[0])
     if kwargs:
         raise Unsupported("sorted with key/reverse")
@@ -1311,3 +1320,19 @@ def contains(interp, container, x):      # noqa: F811
             return lift(any(needle in r for r in runs))
         raise Unsupported("substring test on an f-string with non-integer holes")
     return _old_contains2(interp, container, x)
+
+
+@lib("copy.deepcopy", "copy.copy")
+def _deepcopy(interp, args, kwargs):
+    v = args[0]
+    if isinstance(v, Vec):
+        if v.elem in ("int", "real", "bool", "str"):
+            return ops.vec_copy(interp.ctx, v)
+        # nested lists: copy the outer list; inner lists are copied lazily (fresh Vec objects per access would lose
+        # identity, so inner lists are treated as immutable values here -- writes to them are unsupported)
+        out = ops.vec_copy(interp.ctx, v)
+        out.deep_copied = True
+        return out
+    if isinstance(v, (Num, Bool, Str, NoneV, Tup)):
+        return v
+    raise Unsupported(f"deepcopy of {type(v).__name__}")
